@@ -15,6 +15,22 @@
 //       compared with the Lean state machine.
 //       - targeted clean histories (one per setter), random clean histories: a stale result is ORACLE-FAIL
 //       - targeted histories for known departures: a stale/crashing result is KNOWN-CANDIDATE <key>
+//   Extensions (coverage round 2):
+//     * BlocksOnCylindrical templates (few flat blocks of 3-4 crystals: the two crystals of a pair sit at different
+//       radii, so the two incidence cosines of detection_efficiency_no_scatter differ) in phase A (all oracles,
+//       `ssp`/`est`/`effns` correspondence) and in the template pool of the histories;
+//     * `set_act_ip` / `set_att_ip` / `set_spimg_ip`: the owner overwrites the voxel values of an image IN PLACE and
+//       hands the SAME shared_ptr to the setter again (what ScatterEstimation::process_data does every iteration);
+//     * scatter-point images (given and derived from mirrored attenuation images) with the same number of scatter
+//       points at different places after a computation;
+//     * down-sampled scanners (flag in set_up, explicit `ds_scanner r d` calls) in phase A and in the histories;
+//       automatic zoom/size (-1) of the scatter-point image and downsample_images_to_scanner_size in phase A and in
+//       oracle-only histories;
+//     * randomly_place_scatter_points = true (the library default): per-object oracles (same object, same points);
+//       `time()` is replaced by a clock derived from the seed so that `srand(time(NULL))` in sample_scatter_points is
+//       reproducible (replays). In phase A the clock advances at every call (two samplings never draw the same points) and
+//       the random configurations are judged by same-object oracles only; in the histories it stands still, so that the
+//       comparison with a fresh object is meaningful (their text says "clock pinned").
 //
 // Usage: c16_scatter <seed> <quick|thorough> <opsfile> <implfile>
 #include "stir_fixtures.h"
@@ -32,11 +48,30 @@
 #include <set>
 #include <unistd.h>
 #include <sys/wait.h>
+#include <ctime>
 
 using namespace stir;
 using std::string;
 
 typedef VoxelsOnCartesianGrid<float> Img;
+
+// `sample_scatter_points` calls srand((unsigned)time(NULL)) when randomly_place_scatter_points is on: pin the clock
+// (this definition takes precedence over libc's for the statically linked STIR libraries) so that a run is a
+// function of the seed only
+// g_time_step = 1: every call sees a later second (every sampling of the scatter points draws other points, as in real
+// life): used in phase A, where the oracles of the random configurations only compare results of ONE object;
+// g_time_step = 0: the clock stands still (every sampling draws the same points): used in the histories, so that the
+// comparison with a freshly configured object is meaningful with random placement as well.
+static time_t g_pinned_time = 1700000000;
+static int g_time_step = 0;
+extern "C" time_t
+time(time_t* t) noexcept
+{
+  g_pinned_time += g_time_step;
+  if (t)
+    *t = g_pinned_time;
+  return g_pinned_time;
+}
 
 // access to the protected interface of the real class (no behaviour added)
 struct Sim : public SingleScatterSimulation
@@ -54,6 +89,7 @@ struct Sim : public SingleScatterSimulation
   CartesianCoordinate3D<float> sp(unsigned i) const { return scatt_points_vector[i].coord; }
   float mu(unsigned i) const { return scatt_points_vector[i].mu_value; }
   float vol() const { return scatter_volume; }
+  bool is_blocks() const { return get_template_proj_data_info_sptr()->get_scanner_ptr()->get_scanner_geometry() == "BlocksOnCylindrical"; }
 };
 
 static const float SENTINEL = -1234567.89E10F; // cache_init_value (cached_single_scatter_integrals.cxx:27)
@@ -110,6 +146,7 @@ struct Zoom
 struct TmplDims
 {
   int base, dets, rings, ntang, nseg;
+  int blocks, buckets; // BlocksOnCylindrical? ; number of transaxial buckets
 };
 struct World
 {
@@ -119,8 +156,13 @@ struct World
   std::vector<shared_ptr<ExamInfo>> exams;
   std::vector<shared_ptr<Img>> acts; // last one: different z-middle ("zbad")
   int zbad;
-  std::vector<shared_ptr<Img>> atts;
+  std::vector<shared_ptr<Img>> atts; // 0,1 generated; 2 = 0 mirrored in x (same number of scatter points elsewhere)
   std::vector<shared_ptr<Img>> spimgs;
+  // images on the z-grid of template `auto_tmpl`'s default image (2*rings-1 planes of ring_spacing/2) and a zoom set that
+  // fits them: downsample_images_to_scanner_size keeps their z-grid, so one explicit zoom set is valid before and after
+  shared_ptr<Img> act_grid, att_grid;
+  Zoom zoom_grid;
+  int auto_tmpl; // cylindrical template (>= 2 rings, coarse default bin size) for the automatic zoom of the scatter-point image
   std::vector<float> thrs;
   std::vector<Zoom> zooms;
   int anz, anxy;
@@ -164,6 +206,10 @@ struct Config
   bool use_cache = true;
   bool ds = false;
   int ds_rings = -1, ds_dets = -1;
+  bool rnd = false;                          // randomly_place_scatter_points
+  bool ds_images = false;                    // downsample_images_to_scanner_size() after the images were set
+  bool grid = false;                         // act_grid / att_grid / zoom_grid instead of act / att / zoom
+  std::vector<std::pair<int, int>> ds_calls; // explicit downsample_scanner(rings, dets) calls after the template was set
 };
 
 // "freshly configured": sampling parameters, template, exam info, images — then the caller calls set_up()
@@ -171,20 +217,32 @@ static std::unique_ptr<Sim>
 configure(const World& w, const Config& c, shared_ptr<Img> act_override = shared_ptr<Img>())
 {
   std::unique_ptr<Sim> s(new Sim);
-  s->set_randomly_place_scatter_points(false);
+  s->set_randomly_place_scatter_points(c.rnd);
   s->set_attenuation_threshold(w.thrs[c.thr]);
   s->set_use_cache(c.use_cache);
   if (c.tmpl >= 0)
-    s->set_template_proj_data_info(*w.tmpls[c.tmpl]);
+    {
+      s->set_template_proj_data_info(*w.tmpls[c.tmpl]);
+      for (const auto& rd : c.ds_calls)
+        s->downsample_scanner(rd.first, rd.second);
+    }
   if (c.exam >= 0)
     s->set_exam_info(*w.exams[c.exam]);
   if (act_override)
     s->set_activity_image_sptr(act_override);
+  else if (c.grid)
+    s->set_activity_image_sptr(w.act_grid);
   else if (c.act >= 0)
     s->set_activity_image_sptr(w.acts[c.act]);
-  if (c.att >= 0)
+  if (c.grid)
+    s->set_density_image_sptr(w.att_grid);
+  else if (c.att >= 0)
     s->set_density_image_sptr(w.atts[c.att]);
-  if (c.zoom >= 0)
+  if (c.ds_images)
+    s->downsample_images_to_scanner_size();
+  if (c.grid)
+    s->set_image_downsample_factors(w.zoom_grid.zxy, w.zoom_grid.zz, w.zoom_grid.sxy, w.zoom_grid.sz);
+  else if (c.zoom >= 0)
     s->set_image_downsample_factors(w.zooms[c.zoom].zxy, w.zooms[c.zoom].zz, w.zooms[c.zoom].sxy, w.zooms[c.zoom].sz);
   if (c.sp >= 0)
     s->set_density_image_for_scatter_points_sptr(w.spimgs[c.sp]);
@@ -248,6 +306,45 @@ total(const std::vector<float>& v)
 }
 
 // ------------------------------------------------------------------------------------------------ world generation
+// BlocksOnCylindrical scanner: nb flat blocks (one per bucket) of cpb crystals (cpb >= 3: the crystals of a block are
+// at different distances from the axis), R rings
+static shared_ptr<Scanner>
+make_blocks_scanner(int nb, int cpb, int R, float radius, float fill, float eres)
+{
+  const int N = nb * cpb;
+  // the block face (cpb * cs wide) takes `fill` of the side of the regular nb-gon at the inner radius
+  const float cs = fill * 2.F * radius * std::tan(3.14159265F / nb) / cpb;
+  shared_ptr<Scanner> s(new Scanner(Scanner::User_defined_scanner,
+                                    std::string("verif_blocks"),
+                                    N,
+                                    R,
+                                    N / 2 - 1,
+                                    N / 2 - 1,
+                                    radius,
+                                    /*average_depth_of_interaction*/ 5.F,
+                                    /*ring_spacing*/ 4.F,
+                                    /*bin_size*/ 2.F,
+                                    /*intrinsic_tilt*/ 0.F,
+                                    /*num_axial_blocks_per_bucket*/ 1,
+                                    /*num_transaxial_blocks_per_bucket*/ 1,
+                                    /*num_axial_crystals_per_block*/ R,
+                                    /*num_transaxial_crystals_per_block*/ cpb,
+                                    /*num_axial_crystals_per_singles_unit*/ 1,
+                                    /*num_transaxial_crystals_per_singles_unit*/ 1,
+                                    /*num_detector_layers*/ 1,
+                                    eres,
+                                    511.F,
+                                    /*max_num_of_timing_poss*/ static_cast<short>(1),
+                                    /*size_timing_pos*/ 0.F,
+                                    /*timing_resolution*/ 500.F,
+                                    "BlocksOnCylindrical",
+                                    /*axial_crystal_spacing*/ 4.F,
+                                    /*transaxial_crystal_spacing*/ cs,
+                                    /*axial_block_spacing*/ 4.F * R,
+                                    /*transaxial_block_spacing*/ cs * cpb));
+  return s;
+}
+
 static World
 make_world(int id, vh::Rng& rng, bool thorough)
 {
@@ -273,12 +370,65 @@ make_world(int id, vh::Rng& rng, bool thorough)
     d.rings = r;
     d.ntang = p->get_num_tangential_poss();
     d.nseg = p->get_num_segments();
+    d.blocks = 0;
+    d.buckets = 1;
     w.tmpls.push_back(p);
     w.dims.push_back(d);
   };
   add_tmpl(N, R, 0.F, 0.10F + 0.02F * rng.range(0, 3));
   add_tmpl(N, R, 12.F + rng.range(0, 8), 0.20F);
   add_tmpl(N2, R2, 5.F, 0.14F);
+  // templates 3 and 4: BlocksOnCylindrical, same sizes, different radius / crystal pitch / energy resolution
+  {
+    static const int NB[] = { 4, 4, 6, 5 }, CPB[] = { 3, 4, 3, 4 };
+    const int k = rng.range(0, 3);
+    // (>= 2 rings: downsample_scanner keeps the axial length of a blocks scanner, which is 0 for a single ring)
+    const int RB = rng.range(2, 3);
+    auto add_blocks = [&](float radius, float fill, float eres) {
+      shared_ptr<Scanner> sc = make_blocks_scanner(NB[k], CPB[k], RB, radius, fill, eres);
+      const int n = NB[k] * CPB[k];
+      shared_ptr<ProjDataInfo> p = vh::make_pdi(sc, 1, RB - 1, n / 2, n / 2 - 1);
+      TmplDims d;
+      d.base = static_cast<int>(w.tmpls.size());
+      d.dets = n;
+      d.rings = RB;
+      d.ntang = p->get_num_tangential_poss();
+      d.nseg = p->get_num_segments();
+      d.blocks = 1;
+      d.buckets = NB[k];
+      w.tmpls.push_back(p);
+      w.dims.push_back(d);
+    };
+    add_blocks(95.F + rng.range(0, 10), 0.70F + 0.05F * rng.range(0, 4), 0.12F);
+    add_blocks(120.F + rng.range(0, 10), 0.55F + 0.05F * rng.range(0, 3), 0.18F);
+  }
+  // template 5: cylindrical, >= 2 rings, coarse default bin size: the automatic (-1) zoom of the scatter-point image
+  // then gives a small image
+  {
+    shared_ptr<Scanner> sc = vh::make_scanner(N, 2 + (id + rng.range(0, 1)) % 2);
+    sc->set_default_bin_size(14.F + rng.range(0, 4));
+    sc->set_energy_resolution(0.15F);
+    const int r = sc->get_num_rings();
+    shared_ptr<ProjDataInfo> p = vh::make_pdi(sc, 1, r - 1, N / 2, N / 2 - 1);
+    TmplDims d;
+    d.base = static_cast<int>(w.tmpls.size());
+    d.dets = N;
+    d.rings = r;
+    d.ntang = p->get_num_tangential_poss();
+    d.nseg = p->get_num_segments();
+    d.blocks = 0;
+    d.buckets = 1;
+    w.auto_tmpl = d.base;
+    w.tmpls.push_back(p);
+    w.dims.push_back(d);
+    // template 6: the same with a much coarser default bin size (another automatic zoom)
+    shared_ptr<Scanner> sc2(new Scanner(*sc));
+    sc2->set_default_bin_size(sc->get_default_bin_size() + 9.F);
+    shared_ptr<ProjDataInfo> p2 = vh::make_pdi(sc2, 1, r - 1, N / 2, N / 2 - 1);
+    d.base = static_cast<int>(w.tmpls.size());
+    w.tmpls.push_back(p2);
+    w.dims.push_back(d);
+  }
   // energy windows: different low thresholds (max scatter angle) and different efficiencies at 511 keV
   w.exams.push_back(mk_exam(400.F, 650.F));
   w.exams.push_back(mk_exam(450.F, 540.F));
@@ -350,6 +500,28 @@ make_world(int id, vh::Rng& rng, bool thorough)
       if (!good)
         w.atts.pop_back();
     }
+  // attenuation image 2: image 0 mirrored in x: the derived scatter-point image has the same number of scatter points
+  // (the grids are symmetric) at mirrored places
+  {
+    auto m = blank(w.anz, w.anxy, w.avz, w.avxy);
+    const Img& a0 = *w.atts[0];
+    for (int z = 0; z < w.anz; ++z)
+      for (int y = -(w.anxy / 2); y <= w.anxy / 2; ++y)
+        for (int x = -(w.anxy / 2); x <= w.anxy / 2; ++x)
+          (*m)[z][y][x] = a0[z][y][-x];
+    w.atts.push_back(m);
+  }
+  // images on the z-grid of the automatic template
+  {
+    const int rr = w.dims[w.auto_tmpl].rings;
+    w.act_grid = blank(2 * rr - 1, w.anxy, 2.F, w.avxy);
+    w.att_grid = blank(2 * rr - 1, w.anxy, 2.F, w.avxy);
+    fill_dense(*w.act_grid, 0.5F, 6.F, 0.25F);
+    for (auto it = w.att_grid->begin_all(); it != w.att_grid->end_all(); ++it)
+      *it = rng.unit() < 0.5 ? static_cast<float>(0.012 + 0.02 * rng.unit()) : static_cast<float>(0.10 + 0.06 * rng.unit());
+    Zoom zg = { 3.F / w.anxy, 1.F / (2 * rr - 2), 3, 2 };
+    w.zoom_grid = zg;
+  }
   // scatter-point images on a coarse grid with the same z-middle: 0 and 1 have the SAME number of
   // voxels above each threshold at different places; 2 has different numbers
   const int cnxy = 3, cnz = 2;
@@ -402,7 +574,7 @@ declare_world(const World& w)
     {
       const TmplDims& d = w.dims[k];
       emit("cfg tmpl " + num(k) + " " + num(d.base) + " " + num(d.dets) + " " + num(d.rings) + " " + num(d.ntang) + " "
-               + num(d.nseg),
+               + num(d.nseg) + " " + num(d.blocks) + " " + num(d.buckets),
            "ok");
     }
   for (std::size_t s = 0; s < w.spimgs.size(); ++s)
@@ -489,9 +661,18 @@ static void
 phase_a(const World& w, const Config& c, vh::Rng& rng, int n_est_ops, const string& tag)
 {
   emit("cfg formula world=" + num(w.id) + " " + tag + " act=" + num(c.act) + " att=" + num(c.att) + " sp=" + num(c.sp)
-           + " tmpl=" + num(c.tmpl) + " exam=" + num(c.exam) + " thr=" + num(c.thr) + " zoom=" + num(c.zoom),
+           + " tmpl=" + num(c.tmpl) + " exam=" + num(c.exam) + " thr=" + num(c.thr) + " zoom=" + num(c.zoom) + " rnd=" + num(c.rnd)
+           + " ds=" + num(c.ds) + ":" + num(c.ds_rings) + ":" + num(c.ds_dets) + " dscalls=" + num(c.ds_calls.size())
+           + " dsimg=" + num(c.ds_images) + " blocks=" + num(w.dims[c.tmpl].blocks),
        "ok");
-  const string ctx = "world=" + num(w.id) + " " + tag;
+  const string ctx = "world=" + num(w.id) + " " + tag + (w.dims[c.tmpl].blocks ? " (BlocksOnCylindrical)" : "") + (c.rnd ? " (random placement)" : "")
+                     + (c.ds || !c.ds_calls.empty() ? " (down-sampled scanner)" : "") + (c.zoom < 0 && c.sp < 0 ? " (automatic zoom)" : "")
+                     + (c.ds_images ? " (images down-sampled to scanner size)" : "");
+  g_time_step = c.rnd ? 1 : 0;
+  struct Restore
+  {
+    ~Restore() { g_time_step = 0; }
+  } restore_clock;
   std::unique_ptr<Sim> s = configure(w, c);
   s->set_up();
   std::vector<float> out;
@@ -508,6 +689,39 @@ phase_a(const World& w, const Config& c, vh::Rng& rng, int n_est_ops, const stri
   // (dense activity images only: a few hot voxels may legitimately see no scatter in a tiny scanner)
   if (c.act < 2)
     oracle(nsp > 0 && total(out) > 0, ctx + " degenerate configuration (no scatter) — generator problem");
+  // detection points: once every detector is registered they are symmetric in z about the centre of the scanner (the shift
+  // applied by set_up: get_m of the first bin, cylindrical and blocks branch)
+  {
+    const Scanner& sc = *s->get_template_proj_data_info_sptr()->get_scanner_ptr();
+    if (ndet == sc.get_num_rings() * sc.get_num_detectors_per_ring())
+      {
+        double sz = 0, az = 0;
+        for (int d = 0; d < ndet; ++d)
+          {
+            sz += s->det(d)[1];
+            az += std::fabs(s->det(d)[1]);
+          }
+        oracle(std::fabs(sz) <= 1e-4 * (az + 1), ctx + " detection points are not centred in z (sum of z = " + num(sz) + ")");
+      }
+    else
+      ++g_checks;
+    if (s->is_blocks())
+      {
+        // generator check: some pair must have clearly different incidence cosines (otherwise this template could not
+        // tell cosA*cosB from cosA*cosA)
+        double maxdiff = 0;
+        for (int A = 0; A < ndet; ++A)
+          for (int B = A + 1; B < ndet; ++B)
+            {
+              const CartesianCoordinate3D<float> DA = s->det(A), DB = s->det(B);
+              if (DA[2] == DB[2] && DA[3] == DB[3])
+                continue;
+              const CartesianCoordinate3D<float> ca(0, -DA[2], -DA[3]), cb(0, -DB[2], -DB[3]);
+              maxdiff = std::max(maxdiff, std::fabs(cos_angle(DB - DA, ca) - cos_angle(DA - DB, cb)));
+            }
+        oracle(maxdiff > 1e-2, ctx + " blocks template without a pair of clearly different incidence cosines — generator problem");
+      }
+  }
   // (1) each output bin is the estimate for the bin's detector pair; non-negative
   {
     shared_ptr<const ProjDataInfo> pdi = s->get_template_proj_data_info_sptr();
@@ -535,7 +749,7 @@ phase_a(const World& w, const Config& c, vh::Rng& rng, int n_est_ops, const stri
   }
   // (2) A<->B symmetry, non-negativity and hypotheses for ALL detector pairs and scatter points
   {
-    long asym_pairs = 0, asym_points = 0, negative = 0, hyp = 0;
+    long asym_pairs = 0, asym_points = 0, negative = 0, hyp = 0, not_inward_on_cylinder = 0;
     for (unsigned A = 0; A < static_cast<unsigned>(ndet); ++A)
       for (unsigned B = A + 1; B < static_cast<unsigned>(ndet); ++B)
         {
@@ -546,6 +760,16 @@ phase_a(const World& w, const Config& c, vh::Rng& rng, int n_est_ops, const stri
           double eab = 0, eba = 0, mag = 0;
           s->actual_scatter_estimate(eab, A, B);
           s->actual_scatter_estimate(eba, B, A);
+          // "never negative" is claimed for coincidence pairs: both crystals see the other one from the inside
+          // (always the case on a cylinder; two crystals of the same flat block do not)
+          bool inward;
+          {
+            const CartesianCoordinate3D<float> DA = s->det(A), DB = s->det(B);
+            const CartesianCoordinate3D<float> ca(0, -DA[2], -DA[3]), cb(0, -DB[2], -DB[3]);
+            inward = cos_angle(DB - DA, ca) > 0 && cos_angle(DA - DB, cb) > 0;
+            if (!inward && !s->is_blocks())
+              ++not_inward_on_cylinder;
+          }
           for (unsigned p = 0; p < static_cast<unsigned>(nsp); ++p)
             {
               const double x = s->simulate_for_one_scatter_point(p, A, B);
@@ -555,6 +779,13 @@ phase_a(const World& w, const Config& c, vh::Rng& rng, int n_est_ops, const stri
                 ++asym_points;
               if (!(x >= 0) || !(y >= 0))
                 ++negative;
+            }
+          if (!inward)
+            {
+              // symmetry still has to hold (checked below); the sign of the normalisation is not claimed
+              if (nsp > 0 && std::fabs(eab - eba) > 64 * EPSF * (std::fabs(eab) + std::fabs(eba)))
+                ++asym_pairs;
+              continue;
             }
           if (nsp > 0)
             {
@@ -569,6 +800,7 @@ phase_a(const World& w, const Config& c, vh::Rng& rng, int n_est_ops, const stri
     oracle(asym_points == 0,
            ctx + " simulate_for_one_scatter_point(sp,A,B) != (sp,B,A) for " + num(asym_points) + " (point, pair) combinations");
     oracle(negative == 0, ctx + " negative scatter estimate for " + num(negative) + " (point, pair) combinations");
+    oracle(not_inward_on_cylinder == 0, ctx + " a chord of a cylindrical scanner has a non-positive incidence cosine (" + num(not_inward_on_cylinder) + ")");
     // hypotheses of the Lean theorems, on the implementation
     for (unsigned p = 0; p < static_cast<unsigned>(nsp); ++p)
       for (unsigned D = 0; D < static_cast<unsigned>(ndet); ++D)
@@ -622,19 +854,73 @@ phase_a(const World& w, const Config& c, vh::Rng& rng, int n_est_ops, const stri
       double e = 0;
       s->actual_scatter_estimate(e, A, B);
       emit(est_line, str(e));
+      // detection_efficiency_no_scatter for the pair, both orders: the model gets the cosine of EACH detector
+      const string r2 = str(static_cast<float>(norm_squared(DA - DB)));
+      const string cA = str(static_cast<float>(cos_angle(DB - DA, ca))), cB = str(static_cast<float>(cos_angle(DA - DB, cb)));
+      emit("effns " + r2 + " " + str(eff511) + " " + cA + " " + cB + " " + str(_PI), str(s->detection_efficiency_no_scatter(A, B)));
+      emit("effns " + r2 + " " + str(eff511) + " " + cB + " " + cA + " " + str(_PI), str(s->detection_efficiency_no_scatter(B, A)));
+    }
+  // (3b) the same object after set_activity_image_sptr + set_up (scatter points are not resampled, so this also holds
+  //      with random placement): 2*activity => 2*estimate, zero activity => 0, the first image again => the first output
+  if (!c.ds && !c.ds_images)
+    {
+      shared_ptr<Img> a2(new Img(*w.acts[c.act]));
+      *a2 *= 2.F;
+      std::vector<float> o2, oz, ob;
+      s->set_activity_image_sptr(a2);
+      bool ok2 = s->set_up() == Succeeded::yes && run_process(*s, o2) && o2.size() == out.size();
+      for (std::size_t i = 0; ok2 && i < out.size(); ++i)
+        if (std::fabs(o2[i] - 2.0 * out[i]) > 16 * EPSF * std::fabs(2.0 * out[i]))
+          ok2 = false;
+      oracle(ok2, ctx + " same object: estimate after set_activity_image_sptr(2*activity) + set_up is not 2*estimate");
+      s->set_activity_image_sptr(w.acts[4]);
+      bool okz = s->set_up() == Succeeded::yes && run_process(*s, oz);
+      for (float x : oz)
+        if (x != 0.F)
+          okz = false;
+      oracle(okz, ctx + " same object: zero activity after set_activity_image_sptr + set_up does not give a zero estimate");
+      // additivity on the same object: 2*a + 0.5*b
+      {
+        const int other = (c.act == 1) ? 2 : 1;
+        std::vector<float> o_other, o_comb;
+        s->set_activity_image_sptr(w.acts[other]);
+        bool lin = s->set_up() == Succeeded::yes && run_process(*s, o_other);
+        shared_ptr<Img> comb(new Img(*w.acts[c.act]));
+        *comb *= 2.F;
+        {
+          Img tmp(*w.acts[other]);
+          tmp *= 0.5F;
+          *comb += tmp;
+        }
+        s->set_activity_image_sptr(comb);
+        lin = lin && s->set_up() == Succeeded::yes && run_process(*s, o_comb) && o_comb.size() == out.size() && o_other.size() == out.size();
+        long bad = 0;
+        for (std::size_t i = 0; lin && i < out.size(); ++i)
+          {
+            const double expect = 2.0 * out[i] + 0.5 * o_other[i];
+            if (std::fabs(o_comb[i] - expect) > 4 * 64 * EPSF * std::fabs(expect))
+              ++bad;
+          }
+        oracle(lin && bad == 0, ctx + " same object: estimate is not additive in the activity image (" + num(bad) + " bins outside 4*64*2^-24 relative)");
+      }
+      s->set_activity_image_sptr(w.acts[c.act]);
+      oracle(s->set_up() == Succeeded::yes && run_process(*s, ob) && bitwise_equal(ob, out),
+             ctx + " same object: setting the first activity image again does not reproduce the first output");
     }
   // (4) cache disabled: bitwise the same output
   {
     Config c2 = c;
     c2.use_cache = false;
     std::vector<float> o2;
-    oracle(fresh_result(w, c2, o2) && bitwise_equal(out, o2), ctx + " output with the cache disabled differs from the output with the cache enabled");
+    if (!c.rnd) // (another object draws other scatter points)
+      oracle(fresh_result(w, c2, o2) && bitwise_equal(out, o2), ctx + " output with the cache disabled differs from the output with the cache enabled");
     // toggling the cache off on the live object and recomputing
     std::vector<float> o3;
     s->set_use_cache(false);
     oracle(run_process(*s, o3) && bitwise_equal(out, o3), ctx + " output changes after set_use_cache(false) on the same object");
   }
-  // (5) zero activity => zero; homogeneity; additivity
+  // (5) zero activity => zero; homogeneity; additivity — on fresh objects (with random placement: (3b) on the same object)
+  if (!c.rnd)
   {
     std::vector<float> oz;
     Config cz = c;
@@ -688,15 +974,21 @@ struct Hist
   Config cfg; // what a fresh object would be given
   bool dead = false;
   std::vector<string> trace;
+  // images owned by the "user" of the history object: overwritten in place and handed over again (same pointer)
+  shared_ptr<Img> mut_act, mut_att, mut_sp;
 };
 
 static void
-hist_new(Hist& h, const World& w)
+hist_new(Hist& h, const World& w, bool rnd)
 {
   h.w = &w;
   h.sim.reset(new Sim);
-  h.sim->set_randomly_place_scatter_points(false);
+  h.sim->set_randomly_place_scatter_points(rnd);
   h.cfg = Config();
+  h.cfg.rnd = rnd;
+  h.mut_act.reset();
+  h.mut_att.reset();
+  h.mut_sp.reset();
   h.dead = false;
   h.trace.clear();
   emit("new", "ok");
@@ -716,6 +1008,59 @@ hist_apply(Hist& h, const std::vector<string>& t)
         {
           s.set_template_proj_data_info(*w.tmpls[I(1)]);
           h.cfg.tmpl = I(1);
+          h.cfg.ds_calls.clear();
+          return "ok";
+        }
+      if (op == "ds_scanner")
+        {
+          if (!s.has_template_proj_data_info())
+            return "bad-op"; // (null dereference in the library: the generator never asks for it)
+          if (s.downsample_scanner(I(1), I(2)) != Succeeded::yes)
+            return "err";
+          h.cfg.ds_calls.push_back(std::make_pair(I(1), I(2)));
+          return "ok";
+        }
+      // explicit downsample_density_image_for_scatter_points with the parameters of the current zoom set (what set_up
+      // would call if there were no scatter-point image)
+      if (op == "ds_sp")
+        {
+          if (h.cfg.zoom < 0)
+            return "bad-op";
+          const Zoom& z = w.zooms[h.cfg.zoom];
+          s.downsample_density_image_for_scatter_points(z.zxy, z.zz, z.sxy, z.sz);
+          h.cfg.sp = -1;
+          return "ok";
+        }
+      // in-place change + the same pointer again
+      if (op == "set_act_ip" || op == "set_att_ip" || op == "set_spimg_ip")
+        {
+          const int k = I(1);
+          shared_ptr<Img>& mut = op == "set_act_ip" ? h.mut_act : op == "set_att_ip" ? h.mut_att : h.mut_sp;
+          const Img& src = op == "set_act_ip" ? *w.acts[k] : op == "set_att_ip" ? *w.atts[k] : *w.spimgs[k];
+          if (!mut)
+            mut.reset(new Img(src));
+          else
+            {
+              if (mut->get_index_range() != src.get_index_range())
+                return "bad-op";
+              std::copy(src.begin_all_const(), src.end_all_const(), mut->begin_all()); // the object still points here
+            }
+          if (op == "set_act_ip")
+            {
+              s.set_activity_image_sptr(mut);
+              h.cfg.act = k;
+            }
+          else if (op == "set_att_ip")
+            {
+              s.set_density_image_sptr(mut);
+              h.cfg.att = k;
+              h.cfg.sp = -1;
+            }
+          else
+            {
+              s.set_density_image_for_scatter_points_sptr(mut);
+              h.cfg.sp = k;
+            }
           return "ok";
         }
       if (op == "set_act")
@@ -871,11 +1216,11 @@ hist_process(Hist& h)
 
 // run one history; `key` empty: any stale/crash/nofresh result is an ORACLE-FAIL; otherwise KNOWN-CANDIDATE key
 static void
-run_history(const World& w, const std::vector<string>& lines, const string& kind, const string& key, const string& what)
+run_history(const World& w, const std::vector<string>& lines, const string& kind, const string& key, const string& what, bool rnd = false)
 {
-  emit("cfg hist " + kind + " world=" + num(w.id) + (key.empty() ? "" : " " + key), "ok");
+  emit("cfg hist " + kind + " world=" + num(w.id) + (key.empty() ? "" : " " + key) + (rnd ? " random-placement" : ""), "ok");
   Hist h;
-  hist_new(h, w);
+  hist_new(h, w, rnd);
   string trace = "new";
   bool set_up_succeeded_last = false; // set_up() returned Succeeded::yes and nothing was set since
   for (const string& line : lines)
@@ -896,7 +1241,7 @@ run_history(const World& w, const std::vector<string>& lines, const string& kind
           if (kind == "clean" || key.empty())
             {
               if (kind == "clean")
-                oracle(!bad, "world=" + num(w.id) + " history [" + trace + "]: process_data gives `" + ans
+                oracle(!bad, "world=" + num(w.id) + (rnd ? " (random placement, clock pinned)" : "") + " history [" + trace + "]: process_data gives `" + ans
                                  + "` instead of the result of a freshly configured simulation");
               else
                 ++g_checks;
@@ -913,24 +1258,26 @@ run_history(const World& w, const std::vector<string>& lines, const string& kind
             set_up_succeeded_last = ans == "ok";
           else if (t[0] != "nsp" && t[0] != "tmplinfo")
             set_up_succeeded_last = false;
+          if (ans == "bad-op")
+            oracle(false, "harness generated an operation it cannot execute: " + line);
         }
       emit(line, ans);
     }
 }
 
 static std::vector<string>
-base_config(int act, int att, int sp, int tmpl, int exam, int thr, int zoom)
+base_config(int act, int att, int sp, int tmpl, int exam, int thr, int zoom, bool ip = false)
 {
   std::vector<string> l;
   l.push_back("set_thr " + num(thr));
   l.push_back("set_tmpl " + num(tmpl));
   l.push_back("set_exam " + num(exam));
-  l.push_back("set_act " + num(act));
-  l.push_back("set_att " + num(att));
+  l.push_back((ip ? "set_act_ip " : "set_act ") + num(act));
+  l.push_back((ip ? "set_att_ip " : "set_att ") + num(att));
   if (zoom >= 0)
     l.push_back("set_zoom " + num(zoom));
   if (sp >= 0)
-    l.push_back("set_spimg " + num(sp));
+    l.push_back((ip ? "set_spimg_ip " : "set_spimg ") + num(sp));
   return l;
 }
 
@@ -974,6 +1321,106 @@ targeted_histories(const World& w)
       for (const char* x : c.change)
         l.push_back(x);
       append(l, { "process", "set_up", "nsp", "tmplinfo", "process", "process" });
+      run_history(w, l, "clean", "", "");
+    }
+  // --- the same changes, other starting points: scatter points derived from the attenuation image (mirrored image 2:
+  //     same number of scatter points at other places), BlocksOnCylindrical templates (3 and 4 have the same sizes, so
+  //     the caches keep their size), random placement of the scatter points
+  {
+    struct V
+    {
+      int sp, tmpl;
+      bool rnd;
+      std::vector<const char*> change;
+    };
+    const std::vector<V> variants = {
+      { -1, 0, false, { "set_att 2" } },
+      { -1, 0, false, { "set_att 2", "set_thr 1" } },
+      { -1, 1, false, { "set_act 1", "set_att 2" } },
+      { -1, 3, false, { "set_att 2" } },
+      { 0, 0, false, { "set_spimg 1" } },
+      { 0, 0, false, { "set_act 2", "set_spimg 1" } },
+      { 1, 3, false, { "set_spimg 0" } },
+      { 0, 3, false, { "set_act 1" } },
+      { 0, 3, false, { "set_tmpl 4" } },
+      { 0, 3, false, { "set_tmpl 4", "set_exam 1" } },
+      { 0, 4, false, { "set_tmpl 0" } },
+      { 0, 0, false, { "set_tmpl 3" } },
+      { 0, 3, false, { "set_att 1" } },
+      { 0, 3, false, { "set_use_cache 0" } },
+      { 0, 0, true, { "set_act 1" } },
+      { 0, 0, true, { "set_spimg 1" } },
+      { -1, 0, true, { "set_att 2" } },
+      { 0, 3, true, { "set_tmpl 4" } },
+      { 0, 0, true, { "set_use_cache 0" } },
+    };
+    for (const V& v : variants)
+      {
+        std::vector<string> l = base_config(0, 0, v.sp, v.tmpl, 0, 0, 0);
+        append(l, { "nsp", "tmplinfo", "set_up", "process" });
+        for (const char* x : v.change)
+          l.push_back(x);
+        append(l, { "process", "set_up", "nsp", "tmplinfo", "process", "process" });
+        run_history(w, l, "clean", "", "", v.rnd);
+      }
+  }
+  // --- an image is overwritten IN PLACE by its owner and the SAME shared_ptr is handed to the setter again
+  //     (ScatterEstimation::process_data does this with the activity image in every iteration)
+  {
+    struct P
+    {
+      std::vector<const char*> pre;
+      int sp, tmpl;
+      bool rnd;
+      std::vector<const char*> steps;
+    };
+    const std::vector<P> ips = {
+      { {}, 0, 0, false, { "set_act_ip 1", "set_up", "process", "set_act_ip 4", "set_up", "process", "set_act_ip 2", "set_up", "process" } },
+      { { "set_use_cache 0" }, 0, 0, false, { "set_act_ip 1", "set_up", "process", "set_act_ip 4", "set_up", "process", "set_act_ip 2", "set_up", "process" } },
+      { {}, 1, 3, false, { "set_act_ip 3", "set_up", "process", "set_act_ip 4", "set_up", "process", "set_act_ip 0", "set_up", "process" } },
+      { {}, 0, 0, true, { "set_act_ip 1", "set_up", "process", "set_act_ip 4", "set_up", "process", "set_act_ip 0", "set_up", "process" } },
+      { {}, -1, 0, false, { "set_att_ip 1", "set_up", "nsp", "process", "set_att_ip 2", "set_up", "nsp", "process", "set_att_ip 0", "set_up", "process" } },
+      { {}, -1, 4, false, { "set_att_ip 2", "set_up", "nsp", "process", "set_att_ip 1", "set_up", "process" } },
+      { {}, 0, 0, false, { "set_att_ip 1", "set_spimg_ip 0", "set_up", "process", "set_att_ip 0", "set_spimg_ip 1", "set_up", "process" } },
+      { {}, 0, 0, false, { "set_spimg_ip 1", "nsp", "set_up", "process", "set_spimg_ip 2", "nsp", "set_up", "process", "set_spimg_ip 0", "set_up", "process" } },
+      { {}, 0, 3, false, { "set_spimg_ip 1", "set_up", "process", "set_spimg_ip 0", "set_up", "process" } },
+      { {}, 0, 0, true, { "set_spimg_ip 1", "set_up", "process", "set_spimg_ip 0", "set_up", "process" } },
+      { {}, 1, 1, false, { "set_act_ip 3", "process", "set_att_ip 1", "set_spimg_ip 1", "set_act_ip 1", "set_up", "process" } },
+      // the pool pointer first, then the owner's own object, then the pool pointer again
+      { {}, 0, 2, false, { "set_act 1", "set_up", "process", "set_act_ip 2", "set_up", "process", "set_act 1", "set_up", "process" } },
+    };
+    for (const P& v : ips)
+      {
+        std::vector<string> l;
+        for (const char* x : v.pre)
+          l.push_back(x);
+        for (const string& x : base_config(0, 0, v.sp, v.tmpl, 0, 0, 0, true))
+          l.push_back(x);
+        append(l, { "set_up", "nsp", "process" });
+        for (const char* x : v.steps)
+          l.push_back(x);
+        run_history(w, l, "clean", "", "", v.rnd);
+      }
+  }
+  // --- explicit downsample_density_image_for_scatter_points: replaces a given scatter-point image by the derived one
+  {
+    std::vector<string> l = base_config(0, 0, 0, 0, 0, 0, 0);
+    append(l, { "set_up", "nsp", "process", "ds_sp", "nsp", "process", "set_up", "process", "set_att_ip 2", "set_zoom 1", "ds_sp", "nsp", "set_up",
+                "process", "set_spimg 1", "set_up", "process", "ds_sp", "set_act 1", "set_up", "process" });
+    run_history(w, l, "clean", "", "");
+  }
+  // --- explicit downsample_scanner(rings, dets) calls: the down-sampled template is what a fresh object is given
+  for (int tk : { 0, 3 })
+    {
+      const TmplDims& d = w.dims[tk];
+      const int d1 = d.blocks ? d.dets : std::max(6, d.dets - 2);
+      const int d2 = d.blocks ? d.buckets * 2 : std::max(6, d1 - 2);
+      std::vector<string> l = base_config(0, 0, 0, tk, 0, 0, 0);
+      l.push_back("ds_scanner 2 " + num(d1));
+      append(l, { "tmplinfo", "set_up", "process", "set_act 1", "set_up", "process", "set_spimg 1", "set_up", "process" });
+      l.push_back("ds_scanner 3 " + num(d2));
+      append(l, { "tmplinfo", "process", "set_exam 1", "set_up", "process", "set_act_ip 2", "set_up", "process", "set_tmpl 1", "tmplinfo", "set_up",
+                  "process" });
       run_history(w, l, "clean", "", "");
     }
   // the history the design document suspected (scatter-point image of the same size, different voxels):
@@ -1020,9 +1467,10 @@ targeted_histories(const World& w)
                 "set_use_cache(true) / set_cache_enabled(true) after set_up() ran with the cache disabled neither allocates the cache arrays nor "
                 "resets _already_set_up: process_data indexes an empty Array (invalid memory access)");
   }
+  for (int tk : { 0, 3 })
   {
-    const TmplDims& d = w.dims[0];
-    std::vector<string> l = base_config(0, 0, 0, 0, 0, 0, 0);
+    const TmplDims& d = w.dims[tk];
+    std::vector<string> l = base_config(0, 0, 0, tk, 0, 0, 0);
     l.push_back("set_ds 1 " + num(std::max(2, d.rings)) + " " + num(d.dets - 2));
     append(l, { "set_up", "tmplinfo", "process", "set_act 1", "set_up", "tmplinfo", "process" });
     run_history(w, l, "dirty", "scatter-setup:downsample-scanner-flag-makes-set-up-non-idempotent",
@@ -1051,19 +1499,61 @@ targeted_histories(const World& w)
 }
 
 // random histories within the guard of the Lean theorem (`opOk`): the generator only emits
-//   set_exam right after set_tmpl, set_thr / set_zoom right after set_att, cache enabling right after a setter that
-//   resets _already_set_up; never the downsample-scanner flag
+//   set_exam right after set_tmpl / ds_scanner, set_thr / set_zoom right after set_att, cache enabling right after a
+//   setter that resets _already_set_up; never the downsample-scanner flag.
+// Setters come in two flavours (pool pointer / owner's object overwritten in place, same pointer); templates are
+// cylindrical and BlocksOnCylindrical; explicit downsample_scanner calls keep the template meaningful
+// (tangential positions <= detectors - 1).
+struct TmplTrack
+{
+  bool valid = false;
+  TmplDims d;
+  void set(const World& w, int k)
+  {
+    valid = true;
+    d = w.dims[k];
+  }
+  // picks (rings, dets) for an explicit downsample_scanner call; false if none is admissible
+  bool pick_ds(vh::Rng& rng, int& r, int& nd)
+  {
+    if (!valid)
+      return false;
+    r = rng.range(2, 3);
+    if (d.blocks)
+      nd = d.buckets * rng.range(2, std::max(2, d.dets / d.buckets));
+    else
+      nd = 2 * rng.range(3, std::max(3, d.dets / 2));
+    if (nd % 2 != 0)
+      return false;
+    const int ntang = (d.ntang * nd + d.dets - 1) / d.dets + 1;
+    if (ntang > nd - 1)
+      return false;
+    d.nseg = d.nseg == 1 ? 1 : 2 * (r - 1) + 1;
+    d.ntang = ntang;
+    d.dets = nd;
+    d.rings = r;
+    return true;
+  }
+};
+
 static void
-random_clean_history(const World& w, vh::Rng& rng, int length)
+random_clean_history(const World& w, vh::Rng& rng, int length, bool rnd)
 {
   std::vector<string> l;
+  TmplTrack tt;
+  const int ntm = static_cast<int>(w.tmpls.size());
+  auto act_op = [&](int k) { return string(rng.range(0, 2) == 0 ? "set_act_ip " : "set_act ") + num(k); };
+  auto att_op = [&](int k) { return string(rng.range(0, 2) == 0 ? "set_att_ip " : "set_att ") + num(k); };
+  auto sp_op = [&](int k) { return string(rng.range(0, 2) == 0 ? "set_spimg_ip " : "set_spimg ") + num(k); };
   l.push_back("set_zoom " + num(rng.range(0, 1)));
   // most histories start from a complete configuration
   if (rng.range(0, 9) < 8)
     {
-      for (const string& x : base_config(rng.range(0, 3), rng.range(0, 1), rng.coin() ? rng.range(0, 2) : -1, rng.range(0, 2), rng.range(0, 2),
-                                         rng.range(0, 1), rng.range(0, 1)))
+      const int tk = rng.range(0, ntm - 1);
+      for (const string& x : base_config(rng.range(0, 3), rng.range(0, 2), rng.coin() ? rng.range(0, 2) : -1, tk, rng.range(0, 2),
+                                         rng.range(0, 1), rng.range(0, 1), rng.range(0, 3) == 0))
         l.push_back(x);
+      tt.set(w, tk);
       if (rng.coin())
         l.insert(l.begin(), rng.coin() ? "set_use_cache 0" : "set_cache_enabled 0");
       append(l, { "set_up", "process" });
@@ -1072,33 +1562,49 @@ random_clean_history(const World& w, vh::Rng& rng, int length)
     {
       const int r = rng.range(0, 99);
       if (r < 14)
-        l.push_back("set_act " + num(rng.range(0, 4)));
+        l.push_back(act_op(rng.range(0, 4)));
       else if (r < 24)
-        l.push_back("set_att " + num(rng.range(0, 1)));
+        l.push_back(att_op(rng.range(0, 2)));
       else if (r < 36)
-        l.push_back("set_spimg " + num(rng.range(0, 2)));
-      else if (r < 44)
-        l.push_back("set_tmpl " + num(rng.range(0, 2)));
-      else if (r < 52)
+        l.push_back(sp_op(rng.range(0, 2)));
+      else if (r < 43)
         {
-          l.push_back("set_tmpl " + num(rng.range(0, 2)));
+          const int tk = rng.range(0, ntm - 1);
+          l.push_back("set_tmpl " + num(tk));
+          tt.set(w, tk);
+        }
+      else if (r < 50)
+        {
+          const int tk = rng.range(0, ntm - 1);
+          l.push_back("set_tmpl " + num(tk));
+          tt.set(w, tk);
           l.push_back("set_exam " + num(rng.range(0, 2)));
         }
-      else if (r < 57)
+      else if (r < 54)
         {
-          l.push_back("set_att " + num(rng.range(0, 1)));
+          int nr, nd;
+          if (tt.pick_ds(rng, nr, nd))
+            {
+              l.push_back("ds_scanner " + num(nr) + " " + num(nd));
+              if (rng.coin())
+                l.push_back("set_exam " + num(rng.range(0, 2)));
+            }
+        }
+      else if (r < 58)
+        {
+          l.push_back(att_op(rng.range(0, 2)));
           l.push_back("set_thr " + num(rng.range(0, 1)));
           if (rng.coin())
-            l.push_back("set_spimg " + num(rng.range(0, 2)));
+            l.push_back(sp_op(rng.range(0, 2)));
         }
-      else if (r < 61)
+      else if (r < 62)
         {
-          l.push_back("set_att " + num(rng.range(0, 1)));
+          l.push_back(att_op(rng.range(0, 2)));
           l.push_back("set_zoom " + num(rng.range(0, 1)));
         }
       else if (r < 66)
         {
-          l.push_back("set_act " + num(rng.range(0, 3)));
+          l.push_back(act_op(rng.range(0, 3)));
           l.push_back(string(rng.coin() ? "set_use_cache " : "set_cache_enabled ") + num(rng.range(0, 1)));
         }
       else if (r < 69)
@@ -1109,8 +1615,10 @@ random_clean_history(const World& w, vh::Rng& rng, int length)
         l.push_back("set_act -1");
       else if (r < 82)
         l.push_back("set_up");
-      else if (r < 85)
+      else if (r < 84)
         l.push_back("nsp");
+      else if (r < 86)
+        l.push_back("ds_sp");
       else if (r < 87)
         l.push_back("tmplinfo");
       else if (r < 92)
@@ -1122,7 +1630,7 @@ random_clean_history(const World& w, vh::Rng& rng, int length)
         }
     }
   append(l, { "set_up", "process" });
-  run_history(w, l, "clean", "", "");
+  run_history(w, l, "clean", "", "", rnd);
 }
 
 // random histories over everything (including the operations the guard excludes): only the correspondence with
@@ -1130,20 +1638,21 @@ random_clean_history(const World& w, vh::Rng& rng, int length)
 static void
 random_dirty_history(const World& w, vh::Rng& rng, int length)
 {
-  std::vector<string> l = base_config(rng.range(0, 1), rng.range(0, 1), rng.coin() ? rng.range(0, 2) : -1, rng.range(0, 2), rng.range(0, 2),
-                                      rng.range(0, 1), rng.range(0, 1));
+  const int ntm = static_cast<int>(w.tmpls.size());
+  std::vector<string> l = base_config(rng.range(0, 1), rng.range(0, 1), rng.coin() ? rng.range(0, 2) : -1, rng.range(0, ntm - 1), rng.range(0, 2),
+                                      rng.range(0, 1), rng.range(0, 1), rng.range(0, 3) == 0);
   append(l, { "set_up", "process" });
   for (int k = 0; k < length; ++k)
     {
       const int r = rng.range(0, 99);
       if (r < 10)
-        l.push_back("set_act " + num(rng.range(0, 1)));
+        l.push_back(string(rng.coin() ? "set_act_ip " : "set_act ") + num(rng.range(0, 1)));
       else if (r < 18)
-        l.push_back("set_att " + num(rng.range(0, 1)));
+        l.push_back(string(rng.coin() ? "set_att_ip " : "set_att ") + num(rng.range(0, 2)));
       else if (r < 28)
-        l.push_back("set_spimg " + num(rng.range(0, 2)));
+        l.push_back(string(rng.coin() ? "set_spimg_ip " : "set_spimg ") + num(rng.range(0, 2)));
       else if (r < 36)
-        l.push_back("set_tmpl " + num(rng.range(0, 2)));
+        l.push_back("set_tmpl " + num(rng.range(0, ntm - 1)));
       else if (r < 48)
         l.push_back("set_exam " + num(rng.range(0, 2)));
       else if (r < 56)
@@ -1154,8 +1663,10 @@ random_dirty_history(const World& w, vh::Rng& rng, int length)
         l.push_back(string(rng.coin() ? "set_use_cache " : "set_cache_enabled ") + num(rng.range(0, 1)));
       else if (r < 80)
         l.push_back("set_up");
-      else if (r < 83)
+      else if (r < 82)
         l.push_back("nsp");
+      else if (r < 84)
+        l.push_back("ds_sp");
       else if (r < 90)
         l.push_back("process");
       else
@@ -1168,6 +1679,137 @@ random_dirty_history(const World& w, vh::Rng& rng, int length)
   run_history(w, l, "dirty", "", "");
 }
 
+// ------------------------------------------------------------------------------------------------ oracle-only histories
+// (configurations the Lean state machine does not model: automatic zoom of the scatter-point image,
+//  downsample_images_to_scanner_size): the property's statement, evaluated on the implementation
+static string
+compare_with_fresh(Sim& s, const World& w, const Config& c)
+{
+  std::vector<float> v, f;
+  try
+    {
+      if (!run_process(s, v))
+        return "err";
+    }
+  catch (...)
+    {
+      return "err";
+    }
+  if (!fresh_result(w, c, f))
+    return "ok nofresh";
+  if (!bitwise_equal(v, f))
+    return "ok stale";
+  for (float x : v)
+    if (x != 0.F)
+      return "ok fresh";
+  return "ok zero";
+}
+
+static string
+try_set_up(Sim& s)
+{
+  try
+    {
+      return s.set_up() == Succeeded::yes ? "ok" : "err";
+    }
+  catch (...)
+    {
+      return "err";
+    }
+}
+
+static void
+oracle_only_histories(const World& w)
+{
+  emit("cfg oracle-only automatic-zoom world=" + num(w.id), "ok");
+  const string ctx = "world=" + num(w.id) + " automatic zoom/size (-1) of the scatter-point image: ";
+  {
+    Config c;
+    c.act = 0; c.att = 0; c.sp = -1; c.tmpl = w.auto_tmpl; c.exam = 0; c.thr = 0; c.zoom = -1;
+    std::unique_ptr<Sim> o = configure(w, c);
+    string su = try_set_up(*o), v = compare_with_fresh(*o, w, c);
+    oracle(su == "ok" && v == "ok fresh", ctx + "[configure; set_up; process] gives `" + su + " / " + v + "`");
+    const int nsp0 = o->get_num_scatter_points();
+    oracle(nsp0 > 0, ctx + "no scatter points — generator problem");
+    c.act = 1;
+    o->set_activity_image_sptr(w.acts[1]);
+    su = try_set_up(*o), v = compare_with_fresh(*o, w, c);
+    oracle(su == "ok" && v == "ok fresh", ctx + "[...; set_activity_image_sptr; set_up; process] gives `" + su + " / " + v + "` instead of the fresh result");
+    for (int m : { 1, 2 })
+      {
+        c.att = m;
+        o->set_density_image_sptr(w.atts[m]);
+        su = try_set_up(*o), v = compare_with_fresh(*o, w, c);
+        oracle(su == "ok" && v == "ok fresh",
+               ctx + "[...; set_density_image_sptr(" + num(m) + "); set_up; process] gives `" + su + " / " + v + "` instead of the fresh result");
+      }
+    // another template (other default bin size => a fresh object derives another scatter-point image)
+    c.tmpl = w.auto_tmpl + 1;
+    o->set_template_proj_data_info(*w.tmpls[c.tmpl]);
+    su = try_set_up(*o), v = compare_with_fresh(*o, w, c);
+    if (su == "ok" && (v == "ok fresh" || v == "ok zero"))
+      ++g_checks;
+    else
+      known_candidate("scatter-setup:automatic-zoom-scatter-point-image-kept-after-template-change",
+                      "with the default (-1) zoom factors the scatter-point image is derived from the attenuation image AND the template "
+                      "(voxel size of the template's default image); set_template_proj_data_info keeps the image derived for the old template — "
+                      "history [configure zoom=-1; set_up; process; set_template_proj_data_info(other default bin size); set_up; process] gives `"
+                          + su + " / " + v + "` (world " + num(w.id) + ")");
+    // ... and the attenuation image again: re-derived, but with the factors computed for the first template
+    o->set_density_image_sptr(w.atts[c.att]);
+    su = try_set_up(*o), v = compare_with_fresh(*o, w, c);
+    if (su == "ok" && (v == "ok fresh" || v == "ok zero"))
+      ++g_checks;
+    else
+      known_candidate("scatter-setup:automatic-zoom-factors-frozen-by-first-set-up",
+                      "downsample_density_image_for_scatter_points(-1,-1,-1,-1) stores the factors it computed in zoom_xy/zoom_z/zoom_size_z "
+                      "(set_image_downsample_factors), so they are no longer automatic: after a template change the scatter-point image is "
+                      "re-derived with the factors of the FIRST template — history [configure zoom=-1; set_up; process; set_template_proj_data_info("
+                      "other default bin size); set_density_image_sptr; set_up; process] gives `"
+                          + su + " / " + v + "` (world " + num(w.id) + ")");
+  }
+  emit("cfg oracle-only downsample-images world=" + num(w.id), "ok");
+  {
+    const string ctx2 = "world=" + num(w.id) + " downsample_images_to_scanner_size: ";
+    Config c;
+    c.sp = -1; c.tmpl = w.auto_tmpl; c.exam = 0; c.thr = 0; c.grid = true;
+    // (explicit zoom factors, images on the scanner's z-grid: the automatic factors would be frozen by the first set_up,
+    //  which is the class `automatic-zoom-factors-frozen-by-first-set-up`)
+    // on a configured object before the first set_up: the same as a fresh object (trivially the same call sequence)
+    // after a computation: the activity and attenuation images are replaced; a fresh object derives the scatter points
+    // from the down-sampled attenuation image
+    std::unique_ptr<Sim> o = configure(w, c);
+    string su = try_set_up(*o), v = compare_with_fresh(*o, w, c);
+    oracle(su == "ok" && v == "ok fresh", ctx2 + "[configure; set_up; process] gives `" + su + " / " + v + "`");
+    bool called = false;
+    try
+      {
+        called = o->downsample_images_to_scanner_size() == Succeeded::yes;
+      }
+    catch (...)
+      {
+      }
+    oracle(called, ctx2 + "call failed on a configured object");
+    c.ds_images = true;
+    su = try_set_up(*o);
+    if (su == "err")
+      oracle(false, ctx2 + "set_up refuses after downsample_images_to_scanner_size although a fresh object accepts the same configuration");
+    else
+      {
+        v = compare_with_fresh(*o, w, c);
+        if (v == "ok fresh" || v == "ok zero")
+          ++g_checks;
+        else
+          known_candidate("scatter-setup:downsample-images-to-scanner-size-keeps-scatter-point-image",
+                          "downsample_images_to_scanner_size() after a set_up replaces the attenuation image without resetting the scatter-point "
+                          "image derived from the old one (set_density_image_sptr does reset it) — history [configure; set_up; process; "
+                          "downsample_images_to_scanner_size; set_up; process] gives `"
+                              + v + "`, a fresh object [configure; downsample_images_to_scanner_size; set_up; process] samples other scatter points (world "
+                              + num(w.id) + ")");
+      }
+  }
+}
+
 int
 main(int argc, char** argv)
 {
@@ -1176,6 +1818,7 @@ main(int argc, char** argv)
   vh::quiet();
   vh::Rng rng(std::strtoull(argv[1], nullptr, 10) * 1315423911ULL + 16);
   const bool thorough = string(argv[2]) == "thorough";
+  g_pinned_time = 1700000000 + static_cast<time_t>(std::strtoull(argv[1], nullptr, 10) % 100000);
   g_ops = std::fopen(argv[3], "w");
   g_out = std::fopen(argv[4], "w");
   g_orc = std::fopen((string(argv[4]) + ".oracle").c_str(), "w");
@@ -1206,10 +1849,61 @@ main(int argc, char** argv)
             c4.act = 3; c4.att = 0; c4.sp = -1; c4.tmpl = 0; c4.exam = 2; c4.thr = 1; c4.zoom = 1;
             phase_a(w, c4, rng, 12, "A4");
           }
+        const int ne = thorough ? 10 : 6;
+        // BlocksOnCylindrical templates
+        Config b1;
+        b1.act = 0; b1.att = 0; b1.sp = 0; b1.tmpl = 3; b1.exam = 0; b1.thr = 0; b1.zoom = 0;
+        phase_a(w, b1, rng, ne, "B1");
+        Config b2;
+        b2.act = 1; b2.att = 1; b2.sp = -1; b2.tmpl = 4; b2.exam = 2; b2.thr = 0; b2.zoom = 1;
+        phase_a(w, b2, rng, ne, "B2");
+        if (thorough)
+          {
+            Config b3;
+            b3.act = 2; b3.att = 2; b3.sp = 2; b3.tmpl = 3; b3.exam = 1; b3.thr = 1; b3.zoom = 0;
+            phase_a(w, b3, rng, ne, "B3");
+          }
+        // down-sampled scanners: flag (set_up calls downsample_scanner()) on a cylindrical and on a blocks template,
+        // explicit downsample_scanner(rings, dets) calls
+        Config d1;
+        d1.act = 0; d1.att = 1; d1.sp = 1; d1.tmpl = 0; d1.exam = 0; d1.thr = 0; d1.zoom = 0;
+        d1.ds = true; d1.ds_rings = rng.range(2, 3); d1.ds_dets = std::max(6, w.dims[0].dets - 2 * rng.range(0, 2));
+        phase_a(w, d1, rng, ne, "D1");
+        Config d2;
+        d2.act = 1; d2.att = 0; d2.sp = -1; d2.tmpl = 3; d2.exam = 1; d2.thr = 0; d2.zoom = 1;
+        d2.ds = true; d2.ds_rings = rng.range(2, 3); d2.ds_dets = -1;
+        phase_a(w, d2, rng, ne, "D2");
+        Config d3;
+        d3.act = 0; d3.att = 0; d3.sp = 0; d3.tmpl = 2; d3.exam = 2; d3.thr = 0; d3.zoom = 0;
+        d3.ds_calls.push_back(std::make_pair(rng.range(2, 3), std::max(6, w.dims[2].dets - 2)));
+        phase_a(w, d3, rng, ne, "D3");
+        if (thorough)
+          {
+            Config d4;
+            d4.act = 1; d4.att = 1; d4.sp = 1; d4.tmpl = 4; d4.exam = 0; d4.thr = 0; d4.zoom = 0;
+            d4.ds_calls.push_back(std::make_pair(2, w.dims[4].buckets * 2));
+            phase_a(w, d4, rng, ne, "D4");
+          }
+        // automatic zoom / size (-1) of the scatter-point image
+        Config z1;
+        z1.act = 1; z1.att = 0; z1.sp = -1; z1.tmpl = w.auto_tmpl; z1.exam = 0; z1.thr = 0; z1.zoom = -1;
+        phase_a(w, z1, rng, ne, "Z1");
+        // images down-sampled to the scanner's default grid
+        Config i1;
+        i1.act = 0; i1.att = 1; i1.sp = -1; i1.tmpl = w.auto_tmpl; i1.exam = 1; i1.thr = 0; i1.zoom = -1; i1.ds_images = true;
+        phase_a(w, i1, rng, ne, "I1");
+        // random placement of the scatter points (library default)
+        Config r1;
+        r1.act = 0; r1.att = 1; r1.sp = 0; r1.tmpl = 1; r1.exam = 0; r1.thr = 0; r1.zoom = 0; r1.rnd = true;
+        phase_a(w, r1, rng, ne, "R1");
+        Config r2;
+        r2.act = 1; r2.att = 0; r2.sp = -1; r2.tmpl = 3; r2.exam = 2; r2.thr = 0; r2.zoom = 1; r2.rnd = true;
+        phase_a(w, r2, rng, ne, "R2");
       }
       targeted_histories(w);
+      oracle_only_histories(w);
       for (int k = 0; k < n_clean; ++k)
-        random_clean_history(w, rng, len);
+        random_clean_history(w, rng, len, k % 5 == 4);
       for (int k = 0; k < n_dirty; ++k)
         random_dirty_history(w, rng, len);
     }
